@@ -31,7 +31,7 @@ def _f11(pid, spec, v):
     if pid not in ("C20", "C01") or not spec.get("fanout_pull"):
         return False
     d = v.get("detail", "")
-    return v.get("kind") in ("pull_failed_in_update", "run_failed") and ("out of range" in d or "time point in the past" in d)
+    return v.get("kind") in ("pull_failed_in_update", "run_failed", "wsum_run_failed") and ("out of range" in d or "time point in the past" in d)
 
 
 class ValueProducer(fm.TimeComponent):
@@ -92,7 +92,7 @@ class C20(Property):
             reqs = [rnd.choice([None, 0, 1, 5, 100, -3, 7.5]) for _ in range(rnd.randint(3, 12))]
             return dict(kind=kind, reqs=reqs, static_input=rnd.random() < 0.6, payload=rnd.choice(["scalar", "grid"]),
                         repush_at=rnd.randint(0, len(reqs)), units=rnd.choice([["m", "m"], ["m", "km"], ["", "1"], ["degC", "K"]]),
-                        push_time=rnd.choice([None, None, 3]))
+                        push_time=rnd.choice([None, None, 3]), memory=rnd.choice([None, None, 0, 1000]))
         if kind == "pull":
             spec = gen_coupling.gen_dag(rnd, cycle=None, pull_prob=1.0, max_comps=4)
             fan = rnd.random() < 0.08
@@ -105,7 +105,14 @@ class C20(Property):
         cstep = rnd.choice([1, 2, 3, 4, 6])
         pstep = rnd.choice([d for d in (1, 2, 3, 0.5) if (cstep / d) == int(cstep / d)])
         units = rnd.choice([["m", "m", "m"], ["m", "km", "cm"], ["mm/d", "m/s", "mm/d"], ["", "percent", "1"]])[:npairs]
-        return dict(kind=kind, npairs=npairs, cstep=cstep, pstep=pstep, units=units, ncons=rnd.choice([1, 2, 2]), cons_units=rnd.choice([None, "same", "other"]),
+        ncons = rnd.choice([1, 2, 2])
+        cstep2 = cstep
+        fan = False
+        if ncons == 2 and rnd.random() < 0.35:
+            # two consumers with different steps on one merger, slow producer: nearest-publication
+            # semantics apply and requests at the merger are non-monotone (F11 class)
+            cstep, cstep2, pstep, fan = rnd.choice([(1, 3, 6), (1, 2, 8), (2, 3, 12)]) + (True,)
+        return dict(kind=kind, npairs=npairs, cstep=cstep, cstep2=cstep2, fanout_pull=fan, pstep=pstep, units=units, ncons=ncons, cons_units=rnd.choice([None, "same", "other"]),
                     coef=[[rnd.randint(1, 9), rnd.randint(0, 3), rnd.randint(1, 4), rnd.randint(0, 2)] for _ in range(npairs)], end=rnd.choice([6, 12, 18]),
                     order=rnd.sample(range(2 + 2), 4))
 
@@ -144,6 +151,12 @@ class C20(Property):
 
         o.get_data = spy
         o >> inp
+        if spec.get("memory") is not None:
+            import os
+
+            os.makedirs("spill-c20", exist_ok=True)
+            o.memory_limit, o.memory_location = spec["memory"], "spill-c20"
+            out.count("static_with_memory_limit")
         inp.ping()
         inp.exchange_info()
         pt = None if spec["push_time"] is None else T0 + H(spec["push_time"])
@@ -181,6 +194,7 @@ class C20(Property):
             return
         if len(o.data) != 1:
             out.viol("static_history", f"static output holds {len(o.data)} entries", spec=spec)
+        o.finalize()
         if served >= 3 and len(times) >= 2:
             out.key = "static:" + repr(sorted((k, repr(v)) for k, v in spec.items()))
 
@@ -255,13 +269,14 @@ class C20(Property):
         received = {}
 
         class Cons(fm.TimeComponent):
-            def __init__(self, name):
+            def __init__(self, name, step):
                 super().__init__()
                 self._name = name
                 self._time = T0
+                self._stp = step
 
             def _next_time(self):
-                return self.time + H(spec["cstep"])
+                return self.time + H(self._stp)
 
             def _initialize(self):
                 self.inputs.add(name="In", time=self.time, grid=fm.NoGrid(), units=cu)
@@ -281,7 +296,7 @@ class C20(Property):
             def _finalize(self):
                 pass
 
-        cons = [Cons(f"B{k}") for k in range(spec["ncons"])]
+        cons = [Cons(f"B{k}", spec["cstep"] if k == 0 else spec.get("cstep2", spec["cstep"])) for k in range(spec["ncons"])]
         comps = [prod, ws] + cons
         order = [x for x in spec["order"] if x < len(comps)]
         comp = fm.Composition([comps[i] for i in order], print_log=False, log_level=logging.CRITICAL + 10)
@@ -298,11 +313,18 @@ class C20(Property):
         out.count("wsum_compositions")
         for cname, series in received.items():
             for (t, got, units) in series:
-                tot = 0.0
-                for k in range(n):
-                    a, b, wa, wb = spec["coef"][k]
-                    v = o_convert(a + b * t, spec["units"][k], u0)
-                    tot += float(v) * (wa + wb * 0.25 * t)
+                # producer publications nearest to t (both neighbours at an exact midpoint)
+                ps = spec["pstep"]
+                lo = (t // ps) * ps
+                cands = [lo] if t == lo else ([lo] if t - lo < lo + ps - t else ([lo + ps] if t - lo > lo + ps - t else [lo, lo + ps]))
+                tots = []
+                for tp in cands:
+                    tot = 0.0
+                    for k in range(n):
+                        a, b, wa, wb = spec["coef"][k]
+                        v = o_convert(a + b * tp, spec["units"][k], u0)
+                        tot += float(v) * (wa + wb * 0.25 * tp)
+                    tots.append(tot)
                 # delivered in the consumer's units, or (consumer units unset) in the units of one of
                 # the inputs: compare physically, in the units of the first input
                 try:
@@ -314,8 +336,8 @@ class C20(Property):
                     out.viol("wsum_units", f"{cname}: delivered units {units}, consumer declared {cu}", spec=spec)
                     return
                 out.count("wsum_values_checked")
-                if not np.isclose(got0, tot, rtol=1e-9, atol=1e-12):
-                    out.viol("wsum_value", f"{cname} at {t}h received {got} {units} = {got0} {u0}, sum of value*weight is {tot} {u0}", spec=spec)
+                if not any(np.isclose(got0, tot, rtol=1e-9, atol=1e-12) for tot in tots):
+                    out.viol("wsum_value", f"{cname} at {t}h received {got} {units} = {got0} {u0}, sum of value*weight (producer publications at {cands}h) is {tots} {u0}", spec=spec)
                     return
         if not received:
             out.viol("wsum_nothing_received", "consumers received nothing", spec=spec)
@@ -324,10 +346,13 @@ class C20(Property):
             out.key = "wsum:" + repr(sorted((k, repr(v)) for k, v in spec.items()))
         if spec["ncons"] == 2:
             out.count("wsum_two_consumers")
+        if spec.get("fanout_pull"):
+            out.count("wsum_consumers_with_different_steps")
 
     def coverage_gaps(self, counters, tier):
         need = ["static_requests", "static_republication_refused", "static_input_cases", "pull_compositions", "provider_requests_expected",
-                "provider_calls_checked", "chained_pull_components", "wsum_values_checked", "wsum_two_consumers"]
+                "provider_calls_checked", "chained_pull_components", "wsum_values_checked", "wsum_two_consumers", "wsum_consumers_with_different_steps",
+                "static_with_memory_limit"]
         return [f"{k} never observed" for k in need if not counters.get(k)]
 
 
